@@ -1,6 +1,6 @@
 /-
 Executable model of /repo/compiler/src/build/build.rs (non-test code, lines 1–1137 at commit 85b4b67; 467354e added
-`validate_parse_tree`, 85b4b67 the final `allScheduled` check): a statement-by-statement transliteration.  Bugs of the Rust code are reproduced, not repaired
+`validate_parse_tree`, 85b4b67 the final `allScheduled` check; later fixes mirrored: 3cee692, 7afc7c5, 3cc8bac, df89d39): a statement-by-statement transliteration.  Bugs of the Rust code are reproduced, not repaired
 (the SideEffect arm ignores `left`; the "append the terminator unless the last instruction of the whole
 stream equals it" rule).  `nodes[i] = ..` with an index taken from the parse tree would panic when it is out of
 range, and a cyclic parse tree would make the work-list loop run forever: the model keeps both behaviours
